@@ -93,6 +93,14 @@ static void stage_scripts(Run &R) {
         }
         for (uint32_t n = 1; n <= 64; n++) { Bytes l; for (uint32_t i = 0; i < n; i++) l += ref::utf8_encode(sc.lo + (i * 7) % (sc.hi - sc.lo + 1)); if (!go(l + ".com")) return; if (!go("b." + l)) return; }
     }
+    // long multi-label IDN domains: the UTF-8 spelling crosses 253/255 octets long before (or after) the A-label form does
+    for (auto &sc : gen::SCRIPTS) for (uint32_t nl = 2; nl <= 6; nl++) for (uint32_t n : {10u, 20u, 30u, 40u, 42u, 45u, 50u, 56u, 63u})
+        for (const char *tld : {"com", "\xD1\x80\xD1\x84", "\xE4\xB8\xAD\xE5\x9B\xBD"}) {
+            Bytes d; for (uint32_t k = 0; k < nl; k++) { for (uint32_t i = 0; i < n; i++) d += ref::utf8_encode(sc.lo + (i * 5 + k) % (sc.hi - sc.lo + 1)); d += '.'; }
+            d += tld;
+            if (d.size() < 150 || d.size() > 1200) continue;
+            if (!go(d)) return;
+        }
     static const char *BAD[] = {"\xE2\x99\xA5.de", "I\xE2\x99\xA5NY.de", "\xE2\x98\x95.de", "a\xE2\x80\x8D" "b.com", "-a.com", "a-.com", "ab--cd.com", "xn--.com", "xn--a.com", "xn--zzzzzzzz.com", "xn--p1ai.xn--p1ai", "XN--P1AI.com",
                                 "a..com", ".com", "a.com.", "\x80.com", "\xC3.com", "a\xFF.com", "\xEF\xBC\xA1.com", "\xC3\x9F.de", "\xCF\x82.gr", "a\xCC\x81.com", "\xD7\x90" "1.com", "1\xD7\x90.com", "\xD8\xA7" "a.com", "a_b.com", "a b.com", "a\x01.com"};
     for (const char *b : BAD) if (!go(b)) return;
